@@ -447,15 +447,19 @@ def tensor_setitem(interp, base, key, value):
 # bilinear sampling with zero padding (the element function of grid_sample / skimage warp order=1, constant 0)
 # --------------------------------------------------------------------------------------------------------------
 
+def guarded_pixel(pix, H, W, r, c):
+    """pix(r, c) inside the H x W image, 0 outside (zero padding)."""
+    return z3.If(z3.And(r >= 0, r < lift(H), c >= 0, c < lift(W)), reals._real(pix(r, c)), z3.RealVal(0))
+
+
 def bilinear_zero(pix, H, W, x, y):
     """Bilinear interpolation at pixel coordinates (x = column, y = row) of the H x W image `pix(r, c)`, zeros outside."""
     x, y = reals._real(x), reals._real(y)
     x0, y0 = z3.ToInt(x), z3.ToInt(y)
     wx, wy = x - z3.ToReal(x0), y - z3.ToReal(y0)
-    Ht, Wt = lift(H), lift(W)
 
     def P(r, c):
-        return z3.If(z3.And(r >= 0, r < Ht, c >= 0, c < Wt), reals._real(pix(r, c)), z3.RealVal(0))
+        return guarded_pixel(pix, H, W, r, c)
 
     return Sym((1 - wy) * ((1 - wx) * P(y0, x0) + wx * P(y0, x0 + 1)) + wy * ((1 - wx) * P(y0 + 1, x0) + wx * P(y0 + 1, x0 + 1)))
 
